@@ -169,7 +169,7 @@ def run(planf, worker, nworkers, resf):
         for l in open(resf):
             done.add(json.loads(l)["id"])
     for i, m in enumerate(ms):
-        if i % nworkers != worker or i in done:
+        if i % nworkers != worker or i in done or m["file"].startswith(".."):
             continue
         sh(["git", "-C", repo, "checkout", "--", "."])
         path = os.path.join(repo, m["file"])
